@@ -115,6 +115,8 @@ type Exec struct {
 	inLoopHavoc   bool
 	litOrd        map[*ast.FuncLit]int
 	written       map[string]bool // heap keys written on objects the caller can see
+	inlineStack   []*inlineFrame
+	inlineSite    token.Pos // position of the outermost inlined call (scope of sink clauses)
 	factSink      *State // receives type-invariant facts discovered while evaluating contract expressions
 }
 
@@ -1488,6 +1490,7 @@ func (x *Exec) returnStmt(s *ast.ReturnStmt, st *State) {
 		*x.litReturn = append(*x.litReturn, st)
 		return
 	}
+	inl := len(x.inlineStack) > 0
 	var vals []Value
 	switch {
 	case len(s.Results) == 0:
@@ -1514,6 +1517,10 @@ func (x *Exec) returnStmt(s *ast.ReturnStmt, st *State) {
 	}
 	for i, r := range x.results {
 		st.vars[r] = vals[i]
+	}
+	if inl {
+		x.inlineReturn(st)
+		return
 	}
 	x.finish(st, s)
 }
